@@ -382,7 +382,7 @@ impl Property for C08 {
         .iter()
         .map(|s| format!("fault={s}"))
         .collect();
-        v.extend(["pair", "valid-base", "permuted", "parametric", "bound=absent", "bound=absent-binary", "hints"].iter().map(|s| s.to_string()));
+        v.extend(["pair", "valid-base", "permuted", "parametric", "bound=absent", "bound=absent-binary", "hints", "content-sensitivity", "bound=signed-zero"].iter().map(|s| s.to_string()));
         v
     }
     fn cases(&self, tier: Tier) -> usize {
@@ -449,6 +449,72 @@ impl Property for C08 {
                     }
                 }
                 Err(e) => return fail("C08/valid/permutation-rejected", format!("permuted message rejected: {e}")),
+            }
+        }
+        // content sensitivity: the typed instance must change whenever a content field of the message changes
+        // (a conversion that silently drops a field would map both messages to the same typed value)
+        {
+            ctx.label("content-sensitivity");
+            let mut variants: Vec<(&str, v1::Instance)> = vec![];
+            let mut m = base.clone();
+            m.sense = if m.sense == SENSE_MIN { SENSE_MAX } else { SENSE_MIN };
+            variants.push(("sense", m));
+            let mut m = base.clone();
+            m.objective = Some(crate::mk::flin(crate::mk::linear(vec![], 987.125)));
+            variants.push(("objective", m));
+            let mut m = base.clone();
+            let mut d = m.description.clone().unwrap_or_default();
+            d.name = Some("another name".into());
+            m.description = Some(d);
+            variants.push(("description", m));
+            let mut m = base.clone();
+            let mut p = m.parameters.clone().unwrap_or_default();
+            p.entries.insert(424242, 0.5);
+            m.parameters = Some(p);
+            variants.push(("parameters", m));
+            if let Some(k) = base.decision_variable_dependency.keys().min().copied() {
+                let mut m = base.clone();
+                m.decision_variable_dependency.insert(k, crate::mk::fconst(-77.5));
+                variants.push(("decision_variable_dependency", m));
+            }
+            if !base.constraints.is_empty() {
+                let mut m = base.clone();
+                m.constraints[0].name = Some("renamed constraint".into());
+                variants.push(("constraints[0].name", m));
+                let mut m = base.clone();
+                m.constraints[0].equality = if m.constraints[0].equality == EQ_ZERO { LE_ZERO } else { EQ_ZERO };
+                variants.push(("constraints[0].equality", m));
+            }
+            if !base.removed_constraints.is_empty() {
+                let mut m = base.clone();
+                m.removed_constraints[0].removed_reason = "a different reason".into();
+                variants.push(("removed_constraints[0].removed_reason", m));
+            }
+            if !base.decision_variables.is_empty() {
+                let mut m = base.clone();
+                let v = &mut m.decision_variables[0];
+                v.substituted_value = Some(v.substituted_value.map(|x| x + 1.0).unwrap_or(0.25));
+                variants.push(("decision_variables[0].substituted_value", m));
+                let mut m = base.clone();
+                m.decision_variables[0].description = Some("changed description".into());
+                variants.push(("decision_variables[0].description", m));
+            }
+            if let Some(h) = &base.constraint_hints {
+                if !h.one_hot_constraints.is_empty() && h.one_hot_constraints[0].decision_variables.len() >= 2 {
+                    let mut m = base.clone();
+                    m.constraint_hints.as_mut().unwrap().one_hot_constraints[0].decision_variables.pop();
+                    variants.push(("constraint_hints.one_hot_constraints[0].decision_variables", m));
+                }
+            }
+            for (what, m) in variants {
+                match ommx::Instance::try_from(m) {
+                    Ok(t2) => {
+                        if t2 == typed {
+                            return fail(format!("C08/valid/typed-ignores/{}", what.split('[').next().unwrap_or(what)), format!("changing {what} of the message does not change the typed instance: {}", describe_inst(&base)));
+                        }
+                    }
+                    Err(e) => return fail("C08/valid/variant-rejected", format!("a well-formed variant (changed {what}) was rejected: {e}")),
+                }
             }
         }
         // (2) every single fault at every position
